@@ -19,8 +19,28 @@ SIGS = [np.arange(j * 10, j * 10 + (j % 3), dtype='u4') for j in range(N)]      
 NONE = R + 1                      # sentinel for "None" in slice components
 
 
+# a real signature file (HDF5), written once at import time outside the analysis, for the file-backed collection
+_H5 = os.path.join(os.path.dirname(os.path.dirname(os.path.abspath(__file__))), 'scratch', f'c20_n{N}.gs')
+_H5_HANDLE = None
+
+
+def h5_collection():
+    global _H5_HANDLE
+    from gambit.sigs.base import dump_signatures, load_signatures
+    if _H5_HANDLE is None:
+        os.makedirs(os.path.dirname(_H5), exist_ok=True)
+        if not os.path.exists(_H5):
+            tmp = _H5 + f'.{os.getpid()}.tmp'
+            dump_signatures(tmp, AnnotatedSignatures(SignatureArray(SIGS, KS, dtype=np.dtype('u4')), ids=[f'id{j}' for j in range(N)]))
+            os.replace(tmp, _H5)
+        _H5_HANDLE = load_signatures(_H5)
+    return _H5_HANDLE
+
+
 def make(kind=None, sigs=None, ks=KS):
     kind = kind or KIND
+    if kind == 'HDF5Signatures' and sigs is None and ks is KS:
+        return h5_collection()
     sigs = SIGS if sigs is None else sigs
     if kind == 'SignatureArray':
         return SignatureArray(sigs, ks, dtype=np.dtype('u4'))
@@ -80,6 +100,10 @@ def check_index(idx, idx_for_oracle=None, expect_type=None):
 
 def _dec(x):
     return None if x == NONE else x
+
+
+if KIND == 'HDF5Signatures':
+    h5_collection()        # create / open the file at import time
 
 
 # ---- integer index ------------------------------------------------------------------------------------------------
